@@ -1,9 +1,16 @@
 #!/bin/bash
-# run_all_seeded.sh — applies every seeded change in turn and runs its own property's check;
-# every line must say VIOLATION.  (regression of the checks' detection power)
+# run_all_seeded.sh [--harvest] — applies every seeded change in turn and runs its own property's check;
+# every line must say VIOLATION (regression of the checks' detection power).  With --harvest the minimised
+# failing case of each detection is added to the regression corpus (tools/harvest.py).
 cd /verif
 for d in seeded/*/; do
   id=$(basename $d); prop=${id%-*}
   printf "%s: " $id
-  tools/run_mutant.sh /verif/$d/patch.diff $prop 2>&1 | grep -E "VIOLATION|OK|apply" | head -1 | cut -c1-150
+  rm -f build/replay/$prop-*-prop.txt build/replay/$prop-*-panic.txt
+  cd /repo && git apply /verif/$d/patch.diff 2>/dev/null || { echo "patch does not apply"; cd /verif; continue; }
+  cd /verif
+  ./check $prop 2>&1 | grep -E "^(VIOLATION|OK)" | head -1 | cut -c1-150
+  if [ "$1" = "--harvest" ]; then python3 tools/harvest.py $id $prop 2>&1 | sed 's/^/    /'; fi
+  cd /repo && git checkout -- . && cd /verif
 done
+git -C /repo status --short | head -3
